@@ -84,6 +84,11 @@ func (e *env) alphaSigners(k int) ([]world.SignerSpec, bool, string) {
 		return []world.SignerSpec{world.G(e.w.Members[0])}, memIsAlpha, "member"
 	case 3:
 		return []world.SignerSpec{world.G(e.nodes[0].signer)}, false, "stranger"
+	case 5:
+		// the Alphabet's multi-signature is there, but its scope does not reach the call: no witness
+		return []world.SignerSpec{world.Scoped(e.w.Alphabet, transaction.None)}, false, "alphabet(scope None)"
+	case 6:
+		return []world.SignerSpec{world.Scoped(e.w.Alphabet, transaction.CustomContracts, e.w.GAS)}, false, "alphabet(scoped to GAS)"
 	}
 	return nil, false, "nobody"
 }
@@ -99,7 +104,7 @@ func (e *env) pickAlpha(honest int) int {
 	if e.b.Rng.IntN(10) < honest {
 		return 0
 	}
-	return 1 + e.b.Rng.IntN(4)
+	return 1 + e.b.Rng.IntN(6)
 }
 
 func (e *env) presence(pubHex string) string {
